@@ -453,7 +453,22 @@ EVENTS_SEEN = []
 SLOW_RELEASE = threading.Event()
 
 
-def make_frontend_class(i, outcome, consume=False):
+SESSION_BUDGET = [0]
+
+
+class SessionActor(pykka.ThreadingActor):
+    """A per-connection helper actor of a network frontend: not one of the registered frontend
+    classes (only process.stop_remaining_actors stops it); when it is torn down the client
+    reconnects and the frontend's still-listening socket spawns a fresh session - while the
+    respawn budget lasts."""
+
+    def on_stop(self):
+        if SESSION_BUDGET[0] > 0:
+            SESSION_BUDGET[0] -= 1
+            SessionActor.start()
+
+
+def make_frontend_class(i, outcome, consume=False, sessions=0):
     from mopidy.core import CoreListener
 
     class ScriptedFrontend(pykka.ThreadingActor, CoreListener):
@@ -465,6 +480,8 @@ def make_frontend_class(i, outcome, consume=False):
         def on_start(self):
             if outcome == DIES:
                 raise RuntimeError("scripted frontend dies in on_start")
+            for _ in range(sessions):
+                SessionActor.start()  # clients connected while we run
 
         @classmethod
         def start(cls, *a, **kw):
@@ -514,13 +531,14 @@ class patched:
 # shutdown mode: one execution of the real RootCommand.run
 
 
-def run_shutdown_case(case, wd):
+def run_shutdown_case(case, wd, data_dir=None, providers=False, work=None):
     from mopidy import commands
     from mopidy.audio.actor import Audio
     from mopidy.core import Core
     from mopidy.internal import storage
 
-    tmp = tempfile.mkdtemp(prefix="verif-c18-")
+    tmp = data_dir or tempfile.mkdtemp(prefix="verif-c18-")
+    SESSION_BUDGET[0] = int(case.get("respawns", 0))
     del STOPS[:]
     del STARTS[:]
     del DIED[:]
@@ -531,8 +549,10 @@ def run_shutdown_case(case, wd):
     try:
         hm = bool(case["hm"])
         mixer_cls = make_mixer_class(case["om"])
-        backends = [make_backend_class(i, o) for i, o in enumerate(case["obs"])]
-        frontends = [make_frontend_class(i, o) for i, o in enumerate(case["ofs"])]
+        backends = [make_backend_class(i, o, with_providers=providers) for i, o in enumerate(case["obs"])]
+        frontends = [make_frontend_class(i, o, sessions=int(case.get("sessions", 0)) if i == 0 else 0)
+                     for i, o in enumerate(case["ofs"])]
+        CLASS_CODE[SessionActor] = 900
         CLASS_CODE[mixer_cls] = 1
         CLASS_CODE[Audio] = 2
         CLASS_CODE[Core] = 3
@@ -550,7 +570,9 @@ def run_shutdown_case(case, wd):
             def run(self):
                 loop_log.append("run")
                 core_refs = pykka.ActorRegistry.get_by_class(Core)
-                if core_refs and case.get("work", True):
+                if core_refs and work is not None:
+                    work(core_refs[0].proxy())
+                elif core_refs and case.get("work", True):
                     try:  # some traffic through the running stack; failures are not the loop's
                         p = core_refs[0].proxy()
                         p.get_uri_schemes().get(timeout=20)
@@ -696,6 +718,7 @@ def run_shutdown_case(case, wd):
             "saves": len(saves),
             "state_file": os.path.exists(state_file),
             "left": left,
+            "respawns_unused": SESSION_BUDGET[0],
             "threads_left": live,
             "loop": [x if isinstance(x, str) else list(x) for x in loop_log],
             "edges": sorted(f"{a}->{b}" for (a, b) in EDGES),
@@ -705,7 +728,56 @@ def run_shutdown_case(case, wd):
             pykka.ActorRegistry.stop_all(block=True, timeout=5)
         except Exception:  # noqa: BLE001
             pass
-        shutil.rmtree(tmp, ignore_errors=True)
+        SESSION_BUDGET[0] = 0
+        if data_dir is None:
+            shutil.rmtree(tmp, ignore_errors=True)
+
+
+# ---------------------------------------------------------------------------------------
+# session mode: a saved session must survive a start-up that is interrupted at any point
+
+
+def session_digest(path):
+    """The stored session (tracklist, modes, history, mixer) of a state file, or None."""
+    from mopidy.internal import storage
+
+    if not os.path.exists(path):
+        return None
+    import pathlib
+
+    data = storage.load(pathlib.Path(path))
+    if data is None:
+        return {"unreadable": True}
+    st = data.state
+    tl = st.tracklist
+    return {
+        "tracks": [[t.tlid, t.track.uri] for t in tl.tl_tracks],
+        "modes": [bool(tl.consume), bool(tl.random), bool(tl.repeat), bool(tl.single)],
+        "next_tlid": tl.next_tlid,
+        "history": len(st.history.history),
+    }
+
+
+def run_session_case(case, wd):
+    data_dir = tempfile.mkdtemp(prefix="verif-c18s-")
+    state_file = os.path.join(data_dir, "core", "state.json.gz")
+    try:
+        def seed(core):
+            core.tracklist.add(uris=["s0:t0", "s0:t1", "s0:t2"]).get(timeout=20)
+            core.tracklist.set_repeat(True).get(timeout=20)
+            core.tracklist.set_consume(False).get(timeout=20)
+            core.tracklist.remove({"uri": ["s0:t1"]}).get(timeout=20)
+
+        first = run_shutdown_case({"hm": 1, "om": OK, "oa": OK, "early": 0, "obs": [OK], "oc": OK, "ofs": [OK],
+                                   "ol": LQUIT, "restore": 1}, wd, data_dir=data_dir, providers=True, work=seed)
+        before = session_digest(state_file)
+        second = run_shutdown_case(dict(case, restore=1), wd, data_dir=data_dir, providers=True,
+                                   work=lambda core: None)
+        after = session_digest(state_file)
+        return {"before": before, "after": after, "first_saves": first["saves"], "second": {
+            k: second[k] for k in ("status", "escaped", "stops", "starts", "saves", "left", "loop")}}
+    finally:
+        shutil.rmtree(data_dir, ignore_errors=True)
 
 
 # ---------------------------------------------------------------------------------------
@@ -880,45 +952,46 @@ def run_waitfor_case(case, wd):
             ft.join()
             result["foreign_calls"] = atf["calls"] - n1
             result["foreign_done_when_returned"] = box.get("done_when_returned")
-            # (c) the same with the core thread busy: the caller must stay blocked until the core
-            #     has got round to the callback, however long that takes
-            SLOW_RELEASE.clear()
-            order = []
-            d2 = len(atf["done_flags"])
-            orig_wrapper_hook = atf.get("hook")
-            atf["hook"] = lambda: order.append("core-served")
-            slow_future = core.library.browse("s0:slow")  # core blocks in backend.library.browse().get()
-            time.sleep(0.05)
-            order.append("core-busy")
-            box2 = {}
+            if not case.get("skip_busy"):
+                # (c) the same with the core thread busy: the caller must stay blocked until the core
+                #     has got round to the callback, however long that takes
+                SLOW_RELEASE.clear()
+                order = []
+                d2 = len(atf["done_flags"])
+                orig_wrapper_hook = atf.get("hook")
+                atf["hook"] = lambda: order.append("core-served")
+                slow_future = core.library.browse("s0:slow")  # core blocks in backend.library.browse().get()
+                time.sleep(0.05)
+                order.append("core-busy")
+                box2 = {}
 
-            def foreign_busy():
-                THREAD_COMPONENT[threading.get_ident()] = "GstThread"
-                try:
-                    func, args = WORLD.playbin.signals["about-to-finish"]
-                    order.append("callback-issued")
-                    t0 = time.monotonic()
-                    func(WORLD.playbin, *args)
-                    box2["served_when_caller_returned"] = len(atf["done_flags"]) - d2
-                    box2["caller_blocked_s"] = round(time.monotonic() - t0, 2)
-                    order.append("caller-returned")
-                except BaseException as e:  # noqa: BLE001
-                    errors.append(f"foreign-busy: {type(e).__name__}: {e}")
-                finally:
-                    THREAD_COMPONENT.pop(threading.get_ident(), None)
+                def foreign_busy():
+                    THREAD_COMPONENT[threading.get_ident()] = "GstThread"
+                    try:
+                        func, args = WORLD.playbin.signals["about-to-finish"]
+                        order.append("callback-issued")
+                        t0 = time.monotonic()
+                        func(WORLD.playbin, *args)
+                        box2["served_when_caller_returned"] = len(atf["done_flags"]) - d2
+                        box2["caller_blocked_s"] = round(time.monotonic() - t0, 2)
+                        order.append("caller-returned")
+                    except BaseException as e:  # noqa: BLE001
+                        errors.append(f"foreign-busy: {type(e).__name__}: {e}")
+                    finally:
+                        THREAD_COMPONENT.pop(threading.get_ident(), None)
 
-            fb = threading.Thread(target=foreign_busy, name="verif-foreign-busy")
-            fb.start()
-            fb.join(case.get("hold", 1.3))
-            early = not fb.is_alive()
-            order.append("core-released")
-            SLOW_RELEASE.set()
-            fb.join(20)
-            slow_future.get(timeout=20)
-            atf["hook"] = orig_wrapper_hook
-            result["busy_core"] = {"caller_returned_before_release": early, "order": order,
-                                   "served_when_caller_returned": box2.get("served_when_caller_returned"),
-                                   "caller_blocked_s": box2.get("caller_blocked_s")}
+                fb = threading.Thread(target=foreign_busy, name="verif-foreign-busy")
+                fb.start()
+                fb.join(case.get("hold", 1.3))
+                early = not fb.is_alive()
+                order.append("core-released")
+                SLOW_RELEASE.set()
+                fb.join(20)
+                slow_future.get(timeout=20)
+                atf["hook"] = orig_wrapper_hook
+                result["busy_core"] = {"caller_returned_before_release": early, "order": order,
+                                       "served_when_caller_returned": box2.get("served_when_caller_returned"),
+                                       "caller_blocked_s": box2.get("caller_blocked_s")}
             result["callback_threads"] = sorted(atf["threads"])
             result["callback_total"] = atf["calls"]
             # orderly stop, top down
@@ -1122,7 +1195,8 @@ def main():
             t0 = time.monotonic()
             try:
                 res = {"shutdown": run_shutdown_case, "waitfor": run_waitfor_case,
-                       "pykka": run_pykka_case, "dispatch": run_dispatch_case}[mode](case, wd)
+                       "pykka": run_pykka_case, "dispatch": run_dispatch_case,
+                       "session": run_session_case}[mode](case, wd)
             except BaseException as e:  # noqa: BLE001
                 res = {"harness_error": f"{type(e).__name__}: {e}", "tb": traceback.format_exc()[-1500:]}
             res["elapsed_s"] = round(time.monotonic() - t0, 3)
